@@ -16,13 +16,14 @@ RULE = (
     "never appear) of: delivery-engine runs over the full workflow family with random order, withheld acks, injected "
     "cancels, signals, duplicate StartStage, recovery sweeps, operator RestartStage and pause / unpause; jump-heavy loops; crash-engine "
     "runs (every 3rd commit snapshot resumed with recovery); and - via the interleaving engine - racing workers, also with an operator thread (cancel / pause + unpause / restart "
-    "of a finished stage issued at a random point while 3 workers run). Oracle: "
+    "of a finished stage issued at a random point while 3 workers run; and CancelWorkflow x StartWorkflow / CompleteWorkflow "
+    "handler pairs under every schedule with <= 2 preemptions). Oracle: "
     "(old -> new) is in VALID_TRANSITIONS and old is not a completed status, unless the row sits in a commit group that "
     "carries a JumpToStage / RestartStage processed mark (the explicit re-arm). Non-trivial = a status row; distinct = "
     "(entity kind, old, new, re-arm?) edges observed."
 )
 ASSUMPTIONS = ["SQLite backend", "re-arm exemption is decided from the engine's own processed mark in the same commit group, not from timing"]
-MIN_OBS = {"transitions_checked": {"quick": 20000, "thorough": 300000}, "operator_action_runs": {"quick": 60, "thorough": 800}}
+MIN_OBS = {"transitions_checked": {"quick": 20000, "thorough": 300000}, "operator_action_runs": {"quick": 60, "thorough": 800}, "workflow_row_writer_pairs_with_switch": {"quick": 100, "thorough": 1500}}
 TIMEOUT = {"quick": 800, "thorough": 3400}
 
 
@@ -32,6 +33,9 @@ def gen_cases(tier: str, seed: int) -> list[dict]:
     cases += [{"kind": "crash", "spec_i": i, "seed": seed} for i in range(12 if tier == "quick" else 60)]
     cases += [{"kind": "race", "i": i, "seed": seed} for i in range(8 if tier == "quick" else 60)]
     cases += [{"kind": "race", "i": 1000 + i, "seed": seed, "ops": True} for i in range(12 if tier == "quick" else 120)]
+    for other in ("StartWorkflow", "CompleteWorkflow"):
+        for sp in range(2):
+            cases.append({"kind": "cancel_pair", "other": other, "spec": sp, "seed": seed, "sample": 100 if tier == "quick" else 1500})
     return cases
 
 
@@ -123,6 +127,68 @@ def _race(case: dict) -> dict:
     return res
 
 
+def _cancel_pair(case: dict) -> dict:
+    """CancelWorkflow x StartWorkflow and CancelWorkflow x CompleteWorkflow as the two designated handler
+    invocations (both write the workflow row), every schedule with <= 2 preemptions (sampled): every durable
+    change of the workflow row must still be a table transition, and a completed status stays."""
+    import os
+
+    from .. import interleave as il
+    from ..world import World
+
+    spec = [specs.chain(1), specs.diamond()][case["spec"]]
+    w = World()
+    cut = None
+    try:
+        w.submit(spec)
+        for _ in range(300):
+            rows = w.rows()
+            if not rows:
+                break
+            tgt = [r for r in rows if r["type"] == case["other"]]
+            if tgt and (case["other"] == "StartWorkflow" or len(rows) == 1):
+                w.cancel()
+                cw = [r for r in w.rows() if r["type"] == "CancelWorkflow"]
+                if not cw:
+                    break
+                path = os.path.join(il.env.scratch_dir(), f"cut-{os.getpid()}-{random.randrange(1 << 40)}.db")
+                w.store._get_connection().commit()
+                w.copy_db(path)
+                cut = (path, [tgt[0]["id"], cw[0]["id"]])
+                break
+            w.deliver(w.eligible(rows)[0]["id"])
+    finally:
+        w.close()
+    obs: Counter = Counter()
+    edges: Counter = Counter()
+    violations = []
+    keys: set = set()
+    if cut is None:
+        return {"violations": [], "obs": {"cut_point_not_reached": 1}, "keys": []}
+    db, rows = cut
+    try:
+        na, nb = il.solo_length(db, rows[0]), il.solo_length(db, rows[1])
+        rng = random.Random(case["seed"] * 71 + case["spec"])
+        for sc in il.bound_schedules(na, nb, 2, sample=case["sample"], rng=rng):
+            run, info = il.run_pair(db, rows, il.Segments(sc))
+            obs["evaluations"] += 1
+            if run is None:
+                obs["scheduler_watchdog"] += 1
+                continue
+            if info["switches"]:
+                obs["workflow_row_writer_pairs_with_switch"] += 1
+                keys.add(f"cancelpair:{case['other']}:{info['trace_hash']}")
+            v, e = oracles.transition_check(run.audit, run.commits)
+            edges.update(e)
+            for x in v:
+                x.update(pair=f"CancelWorkflow x {case['other']}", schedule=sc)
+            violations += v
+    finally:
+        os.unlink(db)
+    obs["transitions_checked"] = sum(edges.values())
+    return {"violations": _uniq(violations), "obs": dict(obs), "keys": sorted(keys), "edges": dict(edges)}
+
+
 def _mechanism(vs: list[dict], run) -> list[dict]:
     """Re-sign completed-status changes made by a JumpToStage that was handled after the cancel."""
     from ..framework import viol
@@ -153,6 +219,8 @@ def run_case(case: dict) -> dict:
         return _delivery(case)
     if case["kind"] == "crash":
         return _crash(case)
+    if case["kind"] == "cancel_pair":
+        return _cancel_pair(case)
     return _race(case)
 
 
